@@ -1,11 +1,42 @@
 """C16 Identical content is stored once per repository."""
-import os, shutil
+import concurrent.futures as cf
+import json, os, shutil, time
 from props import repo_common
 
 
 def run(ctx):
-    out1 = ctx.go_test("internal/repository", "^TestVerif_C16$", timeout=3000, tags=["c16", "c44", "common"])
-    out2 = ctx.go_test("cmd/restic", "^TestVerif_C16$", timeout=3000)
+    # the two drivers (different packages) are built and run side by side
+    ex = cf.ThreadPoolExecutor(max_workers=1)
+    tags = ["c16", "c44", "common"]   # the same overlay for both (ctx.go_test rewrites overlay.json)
+    f2 = ex.submit(ctx.go_test, "cmd/restic", "^TestVerif_C16$", timeout=3000, tags=tags)
+    try:
+        time.sleep(5)   # the first go command has read the overlay and taken its output directory by now
+        out1 = ctx.go_test("internal/repository", "^TestVerif_C16$", timeout=3000, tags=tags)
+        return judge(ctx, out1, f2)
+    finally:
+        ex.shutdown(wait=True)
+
+
+def judge(ctx, out1, f2):
+    # every upload session as one record: header entries of the packs it uploaded (with multiplicity) against
+    # what was known before and what SaveBlob reported; judged by Fn_StoredOnce.tla (also sees a blob stored
+    # twice inside ONE pack, which the set-valued storage model of RepoTrace.tla cannot)
+    n_once, bad, lines = ctx.check_records("Fn_StoredOnce", os.path.join(out1, "recs_once.ndjson"), name="once")
+    for i in bad[:50]:
+        r = json.loads(lines[i - 1])
+        st = r["stored"]
+        twice = sorted({b for b in st if st.count(b) > 1})
+        again = sorted(set(st) & set(r["old"]))
+        what = "stored-twice-in-one-run" if twice else ("known-blob-stored-again" if again else "report-or-accept-mismatch")
+        ctx.violate("upload/stored-once/%s/%s" % (r["session"], what),
+                    "scenario %s session %s: %d header entries in the packs uploaded by the session, stored twice: %s, already known before: %s, reported new: %d" % (
+                        r["scenario"], r["session"], len(st), twice[:5], again[:5], len(r["fresh"])),
+                    {"scenario": r["scenario"], "session": r["session"]})
+    out2 = f2.result()
+    # ctx.go_results is in completion order: put the repository-level result first
+    with open(os.path.join(out1, "result.json")) as fh:
+        rule1 = json.load(fh)["rule"]
+    ctx.go_results.sort(key=lambda r: 0 if r.get("rule") == rule1 else 1)
     # one trace file: repository-level sessions followed by command-level backups
     with open(os.path.join(out2, "trace.ndjson"), "ab") as dst, open(os.path.join(out1, "trace.ndjson"), "rb") as src:
         shutil.copyfileobj(src, dst)
@@ -16,4 +47,4 @@ def run(ctx):
     r2["rule"] = r1["rule"] + " || " + r2["rule"]
     for k, v in (r1.get("counters") or {}).items():
         r2.setdefault("counters", {})[k] = v
-    return repo_common.finish_trace(ctx, out2, "model_checking")
+    return repo_common.finish_trace(ctx, out2, "model_checking", extra_cov={"upload_sessions_judged_by_Fn_StoredOnce": n_once})
